@@ -47,9 +47,11 @@ def run(out: common.Outcome):
                 cerr = [r for r in rec if r["ev"] == "collectreport"]
                 if k % 2 == 1:
                     # a suite with a collection error that every worker hits: reported once, run fails
-                    if len(cerr) != 1:
-                        out.report(dict(sig, what="collection-error-not-reported-exactly-once", count=len(cerr)),
-                                   {"count": len(cerr), "records": cerr[:4]}, {"files": files, "variant": v})
+                    want = sorted((r["nodeid"], r["outcome"]) for r in rec0 if r["ev"] == "collectreport")
+                    got = sorted((r["nodeid"], r["outcome"]) for r in cerr)
+                    if got != want:
+                        out.report(dict(sig, what="collection-errors-not-reported-exactly-once-each", inprocess=len(want), distributed=len(got)),
+                                   {"inprocess": want, "distributed": got}, {"files": files, "variant": v})
                     if rc == 0:
                         out.report(dict(sig, what="collection-error-but-exit-0"), {"tail": o[-400:]}, {"files": files, "variant": v})
                 else:
